@@ -35,76 +35,105 @@ func c16cases(thorough bool) []c16case {
 	}
 	target := "https://l.example/n/upd"
 	target2 := "https://l.example/n/upd2"
+	type updSpec struct {
+		storedMask int
+		assigns    []int // one base-3 assignment per object: digit 0 absent, 1 new value, 2 null
+	}
+	var specs []updSpec
 	for storedMask := 0; storedMask < 16; storedMask++ {
 		for assign := 0; assign < 81; assign++ {
-			// assign: base-3 digits, 0 absent, 1 new value, 2 null
 			if !thorough && storedMask%3 != 0 && assign%5 != 0 {
 				continue // quick: a third of the stored subsets in full, the others against every 5th update
 			}
-			for _, nObj := range []int{1, 2} {
-				if nObj == 2 && (assign%9 != 4 || storedMask%5 != 0) {
+			specs = append(specs, updSpec{storedMask, []int{assign}})
+		}
+	}
+	// two objects with independent assignments (what one object nulls or sets must not reach the other)
+	for storedMask := 0; storedMask < 16; storedMask++ {
+		if !thorough && storedMask != 15 && storedMask != 6 {
+			continue
+		}
+		for a1 := 0; a1 < 81; a1++ {
+			for a2 := 0; a2 < 81; a2++ {
+				if !thorough && storedMask == 6 && (a1*81+a2)%7 != 0 {
 					continue
 				}
-				for _, kind := range kinds {
-					if kind == ap.SocialOnly && assign%7 != 0 {
-						continue
+				specs = append(specs, updSpec{storedMask, []int{a1, a2}})
+			}
+		}
+	}
+	// three objects: the middle one nulls / sets, its neighbours do the opposite
+	for _, tr := range [][]int{{80, 0, 40}, {0, 80, 0}, {40, 80, 40}, {80, 40, 0}, {2, 1, 0}, {0, 2, 1}, {26, 13, 0}} {
+		specs = append(specs, updSpec{15, tr}, updSpec{0, tr})
+	}
+	targets3 := []string{target, target2, "https://l.example/n/upd3"}
+	for si, sp := range specs {
+		for _, kind := range kinds {
+			if kind == ap.SocialOnly && si%7 != 0 {
+				continue
+			}
+			sp := sp
+			storedMask := sp.storedMask
+			mkStored := func(id string) M {
+				d := Doc("Note", id, "attributedTo", Alice, "published", "2019-01-02T03:04:05Z")
+				for i, m := range members {
+					if storedMask&(1<<uint(i)) != 0 {
+						d[m] = oldVal(m)
 					}
-					storedMask, assign, nObj := storedMask, assign, nObj
-					mkStored := func(id string) M {
-						d := Doc("Note", id, "attributedTo", Alice, "published", "2019-01-02T03:04:05Z")
-						for i, m := range members {
-							if storedMask&(1<<uint(i)) != 0 {
-								d[m] = oldVal(m)
-							}
-						}
-						return d
+				}
+				return d
+			}
+			upd := func(id string, assign int) M {
+				o := Emb("Note", id)
+				a := assign
+				for _, m := range members {
+					switch a % 3 {
+					case 1:
+						o[m] = newVal(m)
+					case 2:
+						o[m] = nil
 					}
-					upd := func(id string) M {
-						o := Emb("Note", id)
-						a := assign
-						for _, m := range members {
-							switch a % 3 {
-							case 1:
-								o[m] = newVal(m)
-							case 2:
-								o[m] = nil
-							}
-							a /= 3
-						}
-						return o
-					}
-					var obj interface{} = upd(target)
-					ids := []string{target}
-					if nObj == 2 {
-						obj = L{upd(target), upd(target2)}
-						ids = append(ids, target2)
-					}
-					c := c16case{family: "update", kind: kind, want: "201",
-						name: fmt.Sprintf("Update stored=%04b assign=%04d objects=%d %s", storedMask, base3(assign), nObj, kind),
-						body: Doc("Update", "", "actor", Alice, "object", obj, "to", Carol)}
-					c.tweak = func(a *ap.App) {
-						for _, id := range ids {
-							a.PutDoc(mkStored(id))
-						}
-					}
-					c.model = func(r *Ref) {
-						for _, id := range ids {
-							doc := r.Store[id]
-							a := assign
-							for _, m := range members {
-								switch a % 3 {
-								case 1:
-									doc[m] = deepCopy(newVal(m))
-								case 2:
-									delete(doc, m)
-								}
-								a /= 3
-							}
-						}
-					}
-					cs = append(cs, c)
+					a /= 3
+				}
+				return o
+			}
+			ids := targets3[:len(sp.assigns)]
+			var obj interface{} = upd(target, sp.assigns[0])
+			if len(ids) > 1 {
+				l := L{}
+				for i, id := range ids {
+					l = append(l, upd(id, sp.assigns[i]))
+				}
+				obj = l
+			}
+			var as []string
+			for _, a := range sp.assigns {
+				as = append(as, fmt.Sprintf("%04d", base3(a)))
+			}
+			c := c16case{family: "update", kind: kind, want: "201",
+				name: fmt.Sprintf("Update stored=%04b assign=%s objects=%d %s", storedMask, strings.Join(as, "/"), len(ids), kind),
+				body: Doc("Update", "", "actor", Alice, "object", obj, "to", Carol)}
+			c.tweak = func(a *ap.App) {
+				for _, id := range ids {
+					a.PutDoc(mkStored(id))
 				}
 			}
+			c.model = func(r *Ref) {
+				for i, id := range ids {
+					doc := r.Store[id]
+					a := sp.assigns[i]
+					for _, m := range members {
+						switch a % 3 {
+						case 1:
+							doc[m] = deepCopy(newVal(m))
+						case 2:
+							delete(doc, m)
+						}
+						a /= 3
+					}
+				}
+			}
+			cs = append(cs, c)
 		}
 	}
 	// ---- Delete ----
@@ -328,7 +357,7 @@ func shortVals(l []interface{}) []string {
 func C16(tier string) int {
 	res := NewResult("C16", tier, "exploration")
 	cases := c16cases(res.Thorough())
-	res.Rule = fmt.Sprintf("Update: stored object with each subset of {name, content, summary, an unknown member} x update object assigning each member in {absent, new value, null} x 1..2 objects; Delete: 1..%d objects of 3 types with/without published/updated, IRI/embedded, model clock; Add/Remove: every sequence of 1..%d objects (IRI/embedded) x every sequence of distinct targets over {owned Collection with duplicates, owned OrderedCollection with duplicates, foreign}; Like and Block with the same object sequences; each type with object/target absent or empty; Social-only and both protocols; %d requests; oracle: a reference model on JSON (merge + null deletion, Tombstone fields, collection edits on owned targets only, liked front insertion, Block undelivered, 400 and unchanged state for missing members)", map[bool]int{false: 2, true: 3}[res.Thorough()], map[bool]int{false: 2, true: 3}[res.Thorough()], len(cases))
+	res.Rule = fmt.Sprintf("Update: stored object with each subset of {name, content, summary, an unknown member} x update object assigning each member in {absent, new value, null}; two objects with every pair of independent assignments (81 x 81) and three-object triples; Delete: 1..%d objects of 3 types with/without published/updated, IRI/embedded, model clock; Add/Remove: every sequence of 1..%d objects (IRI/embedded) x every sequence of distinct targets over {owned Collection with duplicates, owned OrderedCollection with duplicates, foreign}; Like and Block with the same object sequences; each type with object/target absent or empty; Social-only and both protocols; every Like / Block and every third other request again with application hooks wrapped around the default callbacks; %d base requests; oracle: a reference model on JSON (merge + null deletion, Tombstone fields, collection edits on owned targets only, liked front insertion, Block undelivered, 400 and unchanged state for missing members)", map[bool]int{false: 2, true: 3}[res.Thorough()], map[bool]int{false: 2, true: 3}[res.Thorough()], len(cases))
 	res.Assumptions = []string{"JSON nulls are looked for inside the activity's object (ActivityPub 6.3.1), which is what the statement's wording names", "the stored copy of the activity and the outbox entry are C05's",
 		"one collection named twice as target is excluded here (C09's known finding)"}
 	var mu sync.Mutex
@@ -345,7 +374,25 @@ func C16(tier string) int {
 		var vs []viol
 		outc := map[string]int{}
 		classes := map[string]struct{}{}
-		for _, c := range cases[lo:hi] {
+		var expanded []c16case
+		for i, c := range cases[lo:hi] {
+			expanded = append(expanded, c)
+			if c.family == "block" || c.family == "like" || (lo+i)%3 == 0 {
+				// the same request with application hooks wrapped around every default callback: the
+				// documented default effect must be unchanged
+				w := c
+				w.name += " (application hooks wrapped)"
+				base := c.tweak
+				w.tweak = func(a *ap.App) {
+					if base != nil {
+						base(a)
+					}
+					a.Callbacks = ap.CBWrapped
+				}
+				expanded = append(expanded, w)
+			}
+		}
+		for _, c := range expanded {
 			c := c
 			sc := &Scenario{Name: c.name, Kind: c.kind, Entry: "PostOutbox", URL: outbox(Alice), Body: c.body, Tweak: c.tweak}
 			a := sc.World()
@@ -428,7 +475,7 @@ func C16(tier string) int {
 		}
 		mu.Lock()
 		defer mu.Unlock()
-		res.Evaluations += hi - lo
+		res.Evaluations += len(expanded)
 		for k := range classes {
 			res.Nontrivial[k] = struct{}{}
 		}
